@@ -79,7 +79,12 @@ def convert (items : List Item) : Option Declared :=
   else if p.pk.length > 1 then none
   else if hasDup (p.cols.map (lower ∘ Col.name)) then none
   else match p.pk with
-    | [k] => if (p.cols.map Col.name).contains k then some { cols := p.cols.map fun c => (c.name, c.notNull), key := some k } else none
+    | [k] =>
+      -- the key column is found the way duplicates are: by its case-folded name (`keyColumnFoldedLookup`);
+      -- the key declared is the column's own spelling
+      match (p.cols.map Col.name).find? (fun n => lower n == lower k) with
+      | some n => some { cols := p.cols.map fun c => (c.name, c.notNull), key := some n }
+      | none => none
     | _ => some { cols := p.cols.map fun c => (c.name, c.notNull), key := none }
 
 /-! ### options -/
